@@ -121,7 +121,21 @@ def _menu(sig, is_rst):
     return out
 
 
+def _bt(sig, name):
+    return any(n == name for n, _ in (sig.backtrace or []))
+
+
+# variants with restricted input menus: (core, {predicate on the input signal: menu})
+VARIANTS = {
+    # period = 0 makes `counter < period - 1` compare with -1 in the simulator (gap h1); explore the rest of PWM without it
+    "PWM.period_nz": ("PWM", [(lambda s: _bt(s, "_period"), [2, 3, 5, 0xFFFFFFFF, 1])]),
+}
+
+
 def core_program(name):
+    overrides = []
+    if name in VARIANTS:
+        name, overrides = VARIANTS[name]
     build, clocks, _ = CORPUS[name]
 
     def mk():
@@ -147,8 +161,13 @@ def core_program(name):
         observe = []
         for s in sorted(sigs - clkrst, key=lambda s: s.duid):
             observe.append((s.backtrace[-1][0] if s.backtrace else "sig", s))
+        menus = [_menu(s, s in rsts) for s in inputs]
+        for pred, menu in overrides:
+            for k, s in enumerate(inputs):
+                if pred(s):
+                    menus[k] = list(menu)
         info = dict(ios=set(inputs) | {cd.clk for cd in w.cds}, clocks=tuple(clocks), clock_domains=list(w.cds), inputs=inputs,
-                    menus=[_menu(s, s in rsts) for s in inputs], observe=observe, memories=mems, n_rst=len(rsts))
+                    menus=menus, observe=observe, memories=mems, n_rst=len(rsts))
         return f, info
     return mk
 
@@ -159,6 +178,9 @@ def bfs_alphabet(info):
     import itertools
     inputs, menus = info["inputs"], info["menus"]
     nr = info["n_rst"]
+    if sum(len(s) for s in inputs) <= 12:      # narrow cores: every input valuation
+        return list(itertools.product(*[m if len(s) == 1 and len(m) <= 2 else (range(1 << len(s)) if len(m) > 1 else m)
+                                        for s, m in zip(inputs, menus)]))
     one = [k for k, s in enumerate(inputs) if len(s) == 1]
     free1 = one[:7] if len(one) > 7 else one
     if len(one) > 7:      # keep the resets among the free ones
